@@ -182,8 +182,29 @@ def shex(b, limit=80):
     return h if len(h) <= 2 * limit else "%s...(%d bytes)" % (h[:2 * limit], len(b))
 
 
+class MyInt(int):
+    """an int subclass, as produced by user code or other libraries"""
+
+
+class Colour(__import__("enum").IntEnum):
+    one = 1
+    big = 300
+
+
+class MyStr(str):
+    pass
+
+
+# legal but unusual spellings of ordinary values: every field is built from each of them and compared with the reference
+EXOTIC = {"True": True, "False": False, "MyInt(1)": MyInt(1), "MyInt(255)": MyInt(255), "MyInt(-1)": MyInt(-1), "Colour.one": Colour.one, "Colour.big": Colour.big,
+          "MyStr(a)": MyStr("a"), "bytearray(ab)": bytearray(b"ab"), "memoryview(ab)": memoryview(b"ab"), "tuple(1,2)": (1, 2), "float 1.0": 1.0}
+
+
 def enc_value(v):
     """JSON-able encoding of a build value (replay decodes it)"""
+    for name, x in EXOTIC.items():
+        if v is x:
+            return {"$exotic": name}
     if isinstance(v, R.Label):
         return {"$label": [str.__str__(v), v.intvalue]}
     if isinstance(v, bool) or v is None or isinstance(v, (int, str)):
@@ -219,6 +240,8 @@ def dec_value(e):
             return {dec_value(k): dec_value(x) for k, x in e["$dict"]}
         if "$list" in e:
             return [dec_value(x) for x in e["$list"]]
+        if "$exotic" in e:
+            return EXOTIC[e["$exotic"]]
         if "$repr" in e:
             return eval(e["$repr"])
     if isinstance(e, bytes):
@@ -309,8 +332,8 @@ def run_term(t, tn, L, r):
         if ctxdep:
             vals = []
         seen = set()
-        for v in vals + INVALID + boundary_invalids(t):
-            key = repr(v)
+        for v in vals + INVALID + boundary_invalids(t) + list(EXOTIC.values()):
+            key = repr(v) + type(v).__name__
             if key in seen:
                 continue
             seen.add(key)
